@@ -10,7 +10,10 @@ mod doc;
 mod sha256;
 mod tr_core;
 mod tr_expr;
+mod tr_loop;
 mod tr_method;
+mod tr_mut;
+mod tr_pat;
 mod tr_stmt;
 mod types;
 
@@ -56,7 +59,13 @@ fn find_fn<'r>(reg: &'r Registry, t: &Target) -> R<(&'r syn::Signature, &'r syn:
             let mut hits = Vec::new();
             for it in &f.items {
                 if let syn::Item::Impl(im) = it {
-                    if im.trait_.is_some() {
+                    // `Display for X` selects the trait impl, a plain name the inherent impls
+                    let (want_trait, imp) = match imp.split_once(" for ") {
+                        Some((t, x)) => (Some(t), x),
+                        None => (None, imp),
+                    };
+                    let has_trait = im.trait_.as_ref().map(|(_, p, _)| p.segments.last().map(|s| s.ident.to_string()).unwrap_or_default());
+                    if has_trait.as_deref() != want_trait {
                         continue;
                     }
                     let name = match &*im.self_ty {
@@ -139,7 +148,24 @@ fn translate_one(
         deps: BTreeMap::new(),
         done,
         failed,
+        pending: Vec::new(),
+        decl_ty: HashMap::new(),
+        decl_site: HashMap::new(),
+        site_ty: HashMap::new(),
+        first_pass: false,
+        loop_cache: HashMap::new(),
+        aux: Vec::new(),
+        aux_n: 0,
+        loops: Vec::new(),
+        outs: Vec::new(),
+        self_out: None,
+        ret_unit: false,
     };
+    if let Some(i) = t.imp {
+        if let Some((_, x)) = i.split_once(" for ") {
+            tr.self_ty = Some(x.to_string());
+        }
+    }
     let res = translate_fn(&mut tr, sig, block);
     // hash: the item, and every source item that was consulted to translate it
     let mut hashed = toks;
@@ -167,6 +193,8 @@ fn bound_name(b: &syn::TypeParamBound) -> Option<(String, Vec<String>)> {
             for g in &a.args {
                 if let syn::GenericArgument::Type(syn::Type::Path(p)) = g {
                     args.push(p.path.segments.last().map(|s| s.ident.to_string()).unwrap_or_default());
+                } else if let syn::GenericArgument::Type(syn::Type::Slice(sl)) = g {
+                    args.push(format!("[{}]", norm_tokens(&*sl.elem)));
                 } else {
                     args.push("?".into());
                 }
@@ -207,6 +235,10 @@ fn translate_fn(tr: &mut Tr, sig: &syn::Signature, block: &syn::Block) -> R<(Str
                     && (bounds[0].0 == "Borrow" || bounds[0].0 == "AsRef")
                     && bounds[0].1.len() == 1
                     && (bounds[0].1[0] == "Self" || (!self_name.is_empty() && bounds[0].1[0] == self_name));
+                if bounds.len() == 1 && bounds[0].0 == "AsRef" && bounds[0].1 == vec!["[u8]".to_string()] {
+                    tr.tparams.insert(name, TParam::BytesLike);
+                    continue;
+                }
                 if selflike {
                     // `other.borrow()` / `other.as_ref()` yield a `&Self`; the parameter is
                     // modelled as a `Self` (for `AsRef` the identity impl is checked at the use)
@@ -234,16 +266,26 @@ fn translate_fn(tr: &mut Tr, sig: &syn::Signature, block: &syn::Block) -> R<(Str
     // ---- parameters
     let mut env = Env::new();
     let mut params: Vec<(String, String)> = Vec::new(); // (lean name, lean type)
+    let mut iter_param: Option<usize> = None;
+    let mut mut_self = false;
+    let mut out_tys: Vec<String> = Vec::new();
     for a in &sig.inputs {
         match a {
             syn::FnArg::Receiver(r) => {
-                if r.mutability.is_some() {
-                    return Err("`&mut self` / `mut self`".into());
+                if r.mutability.is_some() && r.reference.is_none() {
+                    return Err("`mut self`".into());
                 }
                 let ty = tr.self_named()?;
                 let lt = tr.lean_ty(&ty)?;
                 let ln = tr.fresh("self");
-                env.insert("self".into(), Val::pure_(ln.clone(), ty));
+                let d = env.insert("self".into(), Val::pure_(ln.clone(), ty));
+                if r.mutability.is_some() {
+                    // `&mut self`: the new value is part of the result
+                    tr.outs.push(d);
+                    tr.self_out = Some(d);
+                    mut_self = true;
+                    out_tys.push(lt.clone());
+                }
                 params.push((ln, lt));
             }
             syn::FnArg::Typed(pt) => {
@@ -251,42 +293,114 @@ fn translate_fn(tr: &mut Tr, sig: &syn::Signature, block: &syn::Block) -> R<(Str
                     syn::Pat::Ident(pi) if pi.mutability.is_none() && pi.by_ref.is_none() && pi.subpat.is_none() => pi.ident.to_string(),
                     _ => return Err("parameter pattern (only plain, immutable names)".into()),
                 };
-                let ty = tr.resolve_ty(&pt.ty)?;
+                // `&mut Peekable<impl Iterator<Item = &[u8]>>`, `&mut impl Iterator<Item = &[u8]>`,
+                // `&mut Formatter`
+                let ty = match &*pt.ty {
+                    syn::Type::Reference(r) if r.mutability.is_some() => {
+                        let toks = norm_tokens(&*r.elem);
+                        let is_iter = (toks.starts_with("Peekable < impl Iterator < Item = &") || toks.starts_with("impl Iterator < Item = &"))
+                            && toks.contains("[u8]");
+                        let is_fmt = toks.ends_with("Formatter") || toks.ends_with("Formatter < '_ >");
+                        if is_iter {
+                            Ty::IterB
+                        } else if is_fmt {
+                            Ty::Fmt
+                        } else {
+                            return Err(format!("parameter of type `&mut {}`", toks));
+                        }
+                    }
+                    other => tr.resolve_ty(other)?,
+                };
                 let lt = tr.lean_ty(&ty)?;
                 let ln = tr.fresh(&name);
-                env.insert(name, Val::pure_(ln.clone(), ty));
+                let is_out = matches!(ty, Ty::IterB | Ty::Fmt);
+                let is_iter = ty == Ty::IterB;
+                let d = env.insert(name, Val::pure_(ln.clone(), ty));
+                if is_out {
+                    if tr.outs.len() > if mut_self { 1 } else { 0 } {
+                        return Err("more than one iterator / formatter parameter".into());
+                    }
+                    tr.outs.push(d);
+                    out_tys.push(lt.clone());
+                    if is_iter {
+                        iter_param = Some(params.len());
+                    }
+                }
                 params.push((ln, lt));
             }
         }
     }
     // ---- result
     let ret = match &sig.output {
-        syn::ReturnType::Default => return Err("function without a result".into()),
-        syn::ReturnType::Type(_, ty) => tr.resolve_ty(ty)?,
+        syn::ReturnType::Default => Ty::Unit,
+        syn::ReturnType::Type(_, ty) => {
+            let toks = norm_tokens(&**ty);
+            if toks == "std :: fmt :: Result" || toks == "fmt :: Result" {
+                Ty::FmtRes
+            } else {
+                tr.resolve_ty(ty)?
+            }
+        }
     };
-    let (mode, ret_lean) = match &ret {
-        Ty::ResPE(_) => (Mode::Res, tr.lean_ty(&ret)?),
+    let atom = |s: &String| if s.contains(' ') { format!("({})", s) } else { s.clone() };
+    let (mode, inner) = match &ret {
+        Ty::ResPE(x) => (Mode::Res, (**x).clone()),
         Ty::ResOpaque(_) => return Err("result type `Result<_, E>` with an error type that is not ParserError".into()),
-        other => (Mode::Pure, tr.lean_ty(other)?),
+        other => (Mode::Pure, other.clone()),
     };
+    tr.ret_unit = matches!(inner, Ty::Unit | Ty::FmtRes);
+    let mut parts: Vec<String> = Vec::new();
+    if mut_self {
+        parts.push(out_tys[0].clone());
+    }
+    if !tr.ret_unit {
+        parts.push(tr.lean_ty(&inner)?);
+    }
+    parts.extend(out_tys.iter().skip(if mut_self { 1 } else { 0 }).cloned());
+    if parts.is_empty() {
+        return Err("function without a result that changes nothing".into());
+    }
+    let tuple_ty = if parts.len() == 1 { parts[0].clone() } else { parts.iter().map(atom).collect::<Vec<_>>().join(" × ") };
+    let ret_lean = if mode == Mode::Res { format!("Res {}", atom(&tuple_ty)) } else { tuple_ty };
     tr.mode = mode;
     tr.ret_ty = ret.clone();
     // ---- the Lean type must be the model's
     let mut parts: Vec<String> = params.iter().map(|(_, t)| if t.contains('→') { format!("({})", t) } else { t.clone() }).collect();
     parts.push(ret_lean.clone());
     let lean_type = parts.join(" → ");
-    if norm_ws(&lean_type) != norm_ws(t.model_type) {
+    let strip = |x: &str| norm_ws(&x.replace('(', " ").replace(')', " "));
+    if strip(&lean_type) != strip(t.model_type) {
         return Err(format!("the signature gives the Lean type `{}`, the model definition {} has `{}`", lean_type, t.model, t.model_type));
     }
     // ---- body
-    let body = tr.tr_block(&block.stmts, &env, true, &|me: &mut Tr, v: Val| me.k_ret(v))?;
+    // first pass: only to learn the types of variables declared as `None` / `vec![]`
+    tr.first_pass = true;
+    let saved_names = tr.used_names.clone();
+    let _ = tr.tr_block(&block.stmts, &env, true, &|me: &mut Tr, v: Val, env1: &Env| me.k_ret(v, env1));
+    tr.first_pass = false;
+    tr.used_names = saved_names;
+    tr.aux.clear();
+    tr.aux_n = 0;
+    tr.pending.clear();
+    tr.loops.clear();
+    tr.loop_cache.clear();
+    tr.decl_ty.clear();
+    tr.decl_site.clear();
+    tr.pure_only = 0;
+    let body = tr.tr_block(&block.stmts, &env, true, &|me: &mut Tr, v: Val, env1: &Env| me.k_ret(v, env1))?;
     let binders: Vec<String> = params.iter().map(|(n, t)| format!("({} : {})", n, t)).collect();
     let rust = match t.imp {
         Some(i) => format!("{}::{}", i, t.func),
         None => t.func.to_string(),
     };
+    let mut aux_text = String::new();
+    for a in &tr.aux {
+        aux_text.push_str(&a.replace("LIST", "list_"));
+        aux_text.push('\n');
+    }
     let text = format!(
-        "/-- `{}` in `{}` (to be compared with `{}`) -/\ndef {} {} : {} :=\n  {}\n",
+        "{}/-- `{}` in `{}` (to be compared with `{}`) -/\ndef {} {} : {} :=\n  {}\n",
+        aux_text,
         rust,
         t.file,
         t.model,
@@ -295,7 +409,15 @@ fn translate_fn(tr: &mut Tr, sig: &syn::Signature, block: &syn::Block) -> R<(Str
         ret_lean,
         body.render(2)
     );
-    let fsig = FnSig { lean: t.lean.to_string(), params: params.iter().map(|(_, t)| t.clone()).collect(), ret, mode };
+    let fsig = FnSig {
+        lean: t.lean.to_string(),
+        params: params.iter().map(|(_, t)| t.clone()).collect(),
+        ret,
+        mode,
+        iter_param,
+        mut_self,
+        ret_unit: tr.ret_unit,
+    };
     Ok((text, fsig))
 }
 
@@ -327,6 +449,22 @@ def okOr {α : Type} (o : Option α) (e : Err) : Res α :=
 def unwrapOpt {α : Type} (o : Option α) : Res α :=
   match o with
   | some x => Res.ok x
+  | none => Res.panic
+/-- `bytes.split(p)`: the subtags between the bytes that satisfy `p` (never the empty list). -/
+def splitOn (p : Nat → Bool) : Bytes → List Bytes
+  | [] => [[]]
+  | b :: t =>
+    if p b then [] :: splitOn p t
+    else match splitOn p t with
+      | h :: r => (b :: h) :: r
+      | [] => [[b]]
+/-- `Vec::insert(i, x)`: panics when `i > len`. -/
+def vecInsert {α : Type} (v : List α) (i : Nat) (x : α) : Res (List α) :=
+  if i ≤ v.length then Res.ok (v.take i ++ x :: v.drop i) else Res.panic
+/-- `Vec::remove(i)`: the removed element and the rest; panics when `i ≥ len`. -/
+def vecRemove {α : Type} (v : List α) (i : Nat) : Res (α × List α) :=
+  match v[i]? with
+  | some x => Res.ok (x, v.eraseIdx i)
   | none => Res.panic
 "#;
 
